@@ -383,7 +383,9 @@ CHECK = {
                 "with the finite sums of the optimality theorems, so the output of estimate_pairs itself is proved to be the proper "
                 "rigid motion (rotation and translation) with the smallest sum of squared residuals on the listed pairs; exact data are "
                 "mapped exactly in both branches (coplanar sets included); uniqueness: on exact data t = R0 s + tau0 whose sources are "
-                "not all collinear (3D) / coincident (2D) the returned matrix is exactly (R0, tau0); invariance under permutation of "
+                "not all collinear (3D) / coincident (2D) the returned matrix is exactly (R0, tau0); the four find overloads reduce to "
+                "estimate_pairs and, with the same preconditioning scale on both sets, the result is again optimal on the original "
+                "pairs and equal to (R0, tau0) on exact data; invariance under permutation of "
                 "the correspondences; the refuted statement for the original code (reflection on a coplanar set). Tied by running the "
                 "extracted model against the real class for all eight point types.",
         "note": "Trusted: Coq kernel, real-number axioms, hand-written model (tied only by differential execution), extraction, float "
